@@ -44,6 +44,10 @@ pub struct FState {
     pub short_read_pm: u32,
     pub short_rng: Option<simcore::prng::Rng>,
     pub short_reads: u64,
+    /// environment faults: sites whose system call is made to fail (e.g. "mmap"), and how often
+    /// each armed site was actually reached
+    pub failing_sites: Vec<&'static str>,
+    pub faults_fired: BTreeMap<&'static str, u64>,
 }
 
 pub struct FHooks {
@@ -81,6 +85,15 @@ impl FHooks {
         st.short_read_pm = per_mille;
         st.short_rng = Some(simcore::prng::Rng::derive(seed, "short-reads", 0));
     }
+    /// Environment faults: system calls at these sites fail from now on.
+    pub fn set_failing_sites(&self, sites: Vec<&'static str>) {
+        let mut st = self.st.lock().unwrap();
+        st.failing_sites = sites;
+        st.faults_fired.clear();
+    }
+    pub fn take_faults_fired(&self) -> BTreeMap<&'static str, u64> {
+        std::mem::take(&mut self.st.lock().unwrap().faults_fired)
+    }
     pub fn short_reads_fired(&self) -> u64 {
         self.st.lock().unwrap().short_reads
     }
@@ -115,6 +128,15 @@ impl verif_rt::Hooks for FHooks {
             k
         } else {
             n
+        }
+    }
+    fn fault(&self, site: &'static str) -> bool {
+        let mut st = self.st.lock().unwrap();
+        if st.failing_sites.contains(&site) {
+            *st.faults_fired.entry(site).or_insert(0) += 1;
+            true
+        } else {
+            false
         }
     }
     fn io(&self, op: &IoOp) -> IoDecision {
